@@ -387,9 +387,28 @@ func runC09(c *Ctx) {
 		ufs = append(ufs, u)
 	}
 	for u := range combinedFns {
-		if !untilFns[u] {
-			ufs = append(ufs, u)
+		if untilFns[u] {
+			continue
 		}
+		// a forwarder: it hands the validator the result of a shared expiry function already in the list, called with
+		// its own (from, until) — the expiry is decided on that function
+		fwd, nTV := true, 0
+		for _, vc := range findCalls(u, isTimeValidate) {
+			nTV++
+			uc, ok := vc.Call.Args[1].(*ssa.Call)
+			if !ok || uc.Call.StaticCallee() == nil || !untilFns[uc.Call.StaticCallee()] {
+				fwd = false
+				continue
+			}
+			ua := declArgs(uc)
+			if len(ua) != 2 || c.Path(ua[0], nil) != c.Path(u.Params[len(u.Params)-2], nil) || c.Path(ua[1], nil) != c.Path(u.Params[len(u.Params)-1], nil) {
+				fwd = false
+			}
+		}
+		if fwd && nTV > 0 {
+			continue
+		}
+		ufs = append(ufs, u)
 	}
 	sort.Slice(ufs, func(i, j int) bool { return ufs[i].String() < ufs[j].String() })
 	for _, u := range ufs {
@@ -399,7 +418,7 @@ func runC09(c *Ctx) {
 			// the value handed to the validator as expiry, and the from it is handed with
 			var fromOK = true
 			for _, vc := range findCalls(u, isTimeValidate) {
-				if c.Path(vc.Call.Args[0], nil) != fmt.Sprintf("$%d", len(u.Params)-2) {
+				if c.Path(vc.Call.Args[0], nil) != c.Path(u.Params[len(u.Params)-2], nil) {
 					fromOK = false
 				}
 			}
@@ -433,25 +452,7 @@ func runC09(c *Ctx) {
 	}
 	c.Min("C09.P1", 4)
 
-	// ---- K1 the protocol parameters are what the caller configured: the parser and the applier only read them (a
-	// constructor that "fills in a default" for a zero MaxOperationTimeDelta changes the window for that configuration)
-	{
-		prot := c.NamedType("api/protocol", "Protocol")
-		nW := c.protocolWrites("C09.K1", c.Funcs, func(f *ssa.Function) bool {
-			pp := pkgPathOf(f)
-			return pp == modPkg+pParser || pp == modPkg+pApplier
-		}, prot)
-		c.Check("C09.K1", "protocol-parameters-read-only", nW == 0 && prot != nil, 0, fmt.Sprintf("the operation parser and applier never assign a field of their protocol.Protocol (%d assignment(s))", nW))
-		if w, err := buildWitness(c.Fset); err == nil {
-			wc := c.witnessCtx()
-			pt, _ := w.fns["protoWriteWitness"].Params[0].Type().(*types.Named)
-			fired := wc.protocolWrites("C09.K1", []*ssa.Function{w.fns["protoWriteWitness"]}, func(*ssa.Function) bool { return true }, pt)
-			silent := wc.protocolWrites("C09.K1", []*ssa.Function{w.fns["protoReadOK"]}, func(*ssa.Function) bool { return true }, pt)
-			c.alive("C09.K1", "a configuration field assigned a default", fired == 1, silent == 0)
-		} else {
-			c.Check("C09.K1", "positive-example:build", false, 0, "built-in positive examples could not be built: "+err.Error())
-		}
-	}
+	c.protocolReadOnlyRule("C09.K1")
 	c.Min("C09.K1", 2)
 
 	// ---- U1 the signed anchoring times are compared in one place only: the parser hands them to the configured time
@@ -530,4 +531,24 @@ func runC09(c *Ctx) {
 	}
 	c.Min("C09.U1", 1)
 	c.Assume("no int64 overflow in from + MaxOperationTimeDelta; anchoring times < 2^63; 'missing' bound = 0 as in the JSON model (omitempty)")
+}
+
+// protocolReadOnlyRule: the protocol parameters are what the caller configured: the parser and the applier only read them (a
+// constructor that "fills in a default" for a zero MaxOperationTimeDelta changes the window for that configuration)
+func (c *Ctx) protocolReadOnlyRule(rule string) {
+	prot := c.NamedType("api/protocol", "Protocol")
+	nW := c.protocolWrites(rule, c.Funcs, func(f *ssa.Function) bool {
+		pp := pkgPathOf(f)
+		return pp == modPkg+pParser || pp == modPkg+pApplier
+	}, prot)
+	c.Check(rule, "protocol-parameters-read-only", nW == 0 && prot != nil, 0, fmt.Sprintf("the operation parser and applier never assign a field of their protocol.Protocol (%d assignment(s))", nW))
+	if w, err := buildWitness(c.Fset); err == nil {
+		wc := c.witnessCtx()
+		pt, _ := w.fns["protoWriteWitness"].Params[0].Type().(*types.Named)
+		fired := wc.protocolWrites(rule, []*ssa.Function{w.fns["protoWriteWitness"]}, func(*ssa.Function) bool { return true }, pt)
+		silent := wc.protocolWrites(rule, []*ssa.Function{w.fns["protoReadOK"]}, func(*ssa.Function) bool { return true }, pt)
+		c.alive(rule, "a configuration field assigned a default", fired == 1, silent == 0)
+	} else {
+		c.Check(rule, "positive-example:build", false, 0, "built-in positive examples could not be built: "+err.Error())
+	}
 }
